@@ -1,13 +1,13 @@
 CONSTANTS
   MaxN = 3
-  MaxH = 2
-  MaxE = 2
-  MaxP = 2
+  MaxH = 1
+  MaxE = 1
+  MaxP = 1
   MaxM = 1
   AllowArm = TRUE
   Patched = TRUE
-  MaxOps = 5
-  Mode = "gate"
+  MaxOps = 7
+  Mode = "edge"
 SPECIFICATION MCSpec
-
+VIEW EdgeView
 CHECK_DEADLOCK FALSE
